@@ -15,7 +15,9 @@
 (*   drift:<clause>     the code did something no path of the spec predicts           *)
 (* FOCUS (environment) selects whose property clauses are judged: "C02" or "C11".     *)
 (* Solves harvested from the repository's test suite (harness/pytest_harvest.py) come *)
-(* as the same events with sweeps = 0 (unobserved) and traced = FALSE.                *)
+(* as the same events with sweeps = -1 (unobserved) and traced = FALSE.               *)
+(* Every Step says whether the tolerance of the run is >= 1 (tol_ge1) and how many    *)
+(* sweeps were started (0 = the period was appended without any sweep).               *)
 EXTENDS Solver, Json, IOUtils
 
 Log == ndJsonDeserialize(IOEnv.TRACE_FILE)
@@ -53,12 +55,15 @@ Settle(s3, cap, d) ==
     ELSE Stuck(s3)            \* the loop would go on: not a complete period
 
 PathEnd(s0, e, o, d) ==
-    LET s1 == BeginStepOp(s0)
+    LET s1 == BeginStepOp([s0 EXCEPT !.big = e.tol_ge1])
         \* logged sweeps = sweeps started (an uncaught exception ends the last one);
-        \* sweeps = 0: not observed (solves harvested from the test suite) - the witness n = 1 is used,
-        \* the end state of a path depends only on the last sweep's outcome
-        pre == IF e.sweeps = 0 THEN 0 ELSE e.sweeps - 1
-    IN IF pre < 0 \/ ~BeginStepEnabled(s0, e.horizon) \/ ~JumpEnabled(s1, e.cap, pre) THEN Stuck(s0)
+        \* sweeps = -1: not observed (solves harvested from the test suite) - the witness n = 1 is used,
+        \* the end state of a path depends only on the last sweep's outcome;
+        \* sweeps = 0: the period ended without any sweep
+        pre == IF e.sweeps < 0 THEN 0 ELSE e.sweeps - 1
+    IN IF ~BeginStepEnabled(s0, e.horizon) THEN Stuck(s0)
+       ELSE IF e.sweeps = 0 THEN (IF o = "converge" THEN Settle(s1, e.cap, d) ELSE Stuck(s0))
+       ELSE IF ~JumpEnabled(s1, e.cap, pre) THEN Stuck(s0)
        ELSE LET s2 == JumpOp(s1, pre)
             IN IF ~SweepEnabled(s2, e.cap, o) THEN Stuck(s0)
                ELSE Settle(SweepOp(s2, o), e.cap, d)
@@ -125,8 +130,8 @@ JudgeFinish(s0, e) ==
     IN Worse(p, c)
 
 Reset(s0) == /\ step = s0.step /\ sweep = s0.sweep /\ errc = s0.errc /\ evalErr = s0.evalErr
-             /\ iter = s0.iter /\ status = s0.status /\ len = s0.len /\ hist = << >>
-TraceInit == l = 1 /\ verdict = Ok /\ Reset(InitState(0))
+             /\ iter = s0.iter /\ status = s0.status /\ len = s0.len /\ big = s0.big /\ hist = << >>
+TraceInit == l = 1 /\ verdict = Ok /\ Reset(InitState(0, FALSE))
 
 TraceNext ==
     /\ l <= Len(Log)
@@ -141,7 +146,7 @@ TraceNext ==
        \/ /\ e.ev = "End"
           /\ PrintT(<< "VERDICT", e.tid, verdict.kind \o ":" \o verdict.clause >>)
           /\ verdict' = Ok
-          /\ Set(InitState(0)) /\ UNCHANGED hist
+          /\ Set(InitState(0, FALSE)) /\ UNCHANGED hist
 
 TraceSpec == TraceInit /\ [][TraceNext]_tvars
 
